@@ -1047,6 +1047,15 @@ pub const PAIRS: &[(&str, &str, &str)] = &[
     ("GET alpha", "GET AND alpha", ""),
     ("NOT (GET OR alpha)", "NOT ( GET  OR  alpha )", "C20/blank-inside-filter-parens"),
     ("* | json | max_latency as y", "* | json | [\"max_latency\"] as y", "C20/identifier-prefix-collides-with-keyword"),
+    // regression cases of the fixed finding C20/identifier-prefix-collides-with-keyword (repo 0324001)
+    ("* | json | where trueish == 1", "* | json | where [\"trueish\"] == 1", "C20/identifier-prefix-collides-with-keyword"),
+    ("* | json | nullable + 1 as y", "* | json | [\"nullable\"] + 1 as y", "C20/identifier-prefix-collides-with-keyword"),
+    ("* | json | counter as y", "* | json | [\"counter\"] as y", "C20/identifier-prefix-collides-with-keyword"),
+    ("* | json | sortable as y", "* | json | [\"sortable\"] as y", "C20/identifier-prefix-collides-with-keyword"),
+    ("* | json | p50x as y", "* | json | [\"p50x\"] as y", "C20/identifier-prefix-collides-with-keyword"),
+    ("* | json | sum_total as z", "* | json | [\"sum_total\"] as z", "C20/identifier-prefix-collides-with-keyword"),
+    ("* | json | fields onlyx", "* | json | fields [\"onlyx\"]", "C20/identifier-prefix-collides-with-keyword"),
+    ("* | json | fields exceptional", "* | json | fields [\"exceptional\"]", "C20/identifier-prefix-collides-with-keyword"),
     ("* | json | timeslice(parseDate(t)) 1h", "* | json | timeslice(parseDate(t)) 60m", ""),
     ("* | json | timeslice(parseDate(t)) 1h", "* | json | timeslice(parseDate(t)) 1h as _timeslice", ""),
     ("* | json | split(s) on \" \"", "* | json | split(s) on ' ' as s", ""),
